@@ -49,15 +49,17 @@ type attackPlan struct {
 const maxSrv = 3
 
 type scenario struct {
-	NSrv      int           `json:"n_srv"`
-	SrvKey    [maxSrv]int   `json:"srv_key"`
-	SrvTTL    [maxSrv]int   `json:"srv_ttl"`
-	SrvTLS    [maxSrv]bool  `json:"srv_tls"`
-	SrvSecret [maxSrv]int   `json:"srv_secret"` // secretMode: 0 own HmacKey, 1 HmacKey shared with the other instances in this mode, 2 HmacKey unset
-	SrvTwin   [maxSrv]bool  `json:"srv_twin"`   // same private key as instance 0 (a replica by identity; its secret is still governed by SrvSecret)
-	Clients   [3]int        `json:"client_key"`
-	Sessions  []sessionPlan `json:"sessions"`
-	Attacks   []attackPlan  `json:"attacks"`
+	NSrv      int            `json:"n_srv"`
+	SrvKey    [maxSrv]int    `json:"srv_key"`
+	SrvTTL    [maxSrv]int    `json:"srv_ttl"`
+	SrvTLS    [maxSrv]bool   `json:"srv_tls"`
+	SrvSecret [maxSrv]int    `json:"srv_secret"` // secretMode: 0 own HmacKey, 1 HmacKey shared with the other instances in this mode, 2 HmacKey unset
+	SrvTwin   [maxSrv]bool   `json:"srv_twin"`   // same private key as instance 0 (a replica by identity; its secret is still governed by SrvSecret)
+	Keys      keyFamily      `json:"hmac_keys"`  // shape of the application-provided HmacKeys, see secrets_test.go
+	SrvKeyVar [maxSrv]keyVar `json:"srv_hmac_key"`
+	Clients   [3]int         `json:"client_key"`
+	Sessions  []sessionPlan  `json:"sessions"`
+	Attacks   []attackPlan   `json:"attacks"`
 }
 
 var ttlChoices = []time.Duration{20 * time.Second, 4 * time.Minute, 7 * time.Minute, time.Hour}
@@ -75,10 +77,16 @@ const (
 	opResign
 	opForge
 	opFormat
+	opQuote // the syntax around one value, see syntax_test.go; always applied after the other operators
 	nOps
 )
 
-var opNames = [...]string{"flip", "trunc", "drop", "dup", "reorder", "recase", "reencode", "swap", "move", "resign", "forge", "format"}
+var opNames = [...]string{"flip", "trunc", "drop", "dup", "reorder", "recase", "reencode", "swap", "move", "resign", "forge", "format", "quote"}
+
+// quoteDraw weights the ways a value's quoting is changed: the kinds that alter the value twice.
+var quoteDraw = []int{qJunkAfterClose, qJunkAfterClose, qJunkThenQuote, qJunkThenQuote, qNoClose, qNoClose, qNoOpen, qNoOpen,
+	qDoubleBoth, qDoubleBoth, qDoubleClose, qDoubleClose, qDoubleOpen, qDoubleOpen, qQuoteInside, qQuoteInside,
+	qJunkBeforeOpen, qSingleQuotes, qUnquoted, qSpaceBeforeEq, qSpaceAfterEq, qSpaceInsideOpen, qSpaceInsideClose, qTabAfter, qEscapedClose}
 
 func drawScenario(rt *rapid.T) scenario {
 	var sc scenario
@@ -92,7 +100,9 @@ func drawScenario(rt *rapid.T) scenario {
 		if i > 0 {
 			sc.SrvTwin[i] = rapid.IntRange(0, 4).Draw(rt, "srvtwin") == 0
 		}
+		sc.SrvKeyVar[i] = drawKeyVar(rt)
 	}
+	sc.Keys = drawKeyFamily(rt)
 	for i := range sc.Clients {
 		sc.Clients[i] = rapid.IntRange(0, 3).Draw(rt, "clientkey")
 	}
@@ -129,6 +139,18 @@ func drawScenario(rt *rapid.T) scenario {
 	return sc
 }
 
+func drawKeyFamily(rt *rapid.T) keyFamily {
+	return keyFamily{BaseLen: rapid.IntRange(0, len(keyLens)-1).Draw(rt, "hmackeylen"), Seed: uint64(rapid.IntRange(0, 1<<20).Draw(rt, "hmackeyseed"))}
+}
+
+func drawKeyVar(rt *rapid.T) keyVar {
+	return keyVar{
+		Rel: rapid.SampledFrom([]int{kvUnrelated, kvOneByte, kvOneByte, kvOneByte, kvExtended, kvTruncated}).Draw(rt, "hmackeyrel"),
+		Pos: rapid.IntRange(0, 7).Draw(rt, "hmackeypos"),
+		Len: rapid.IntRange(0, len(keyLens)-1).Draw(rt, "hmackeylen2"),
+	}
+}
+
 func challengeText(seed uint64) string {
 	b := make([]byte, 32)
 	x := seed | 1
@@ -150,6 +172,7 @@ type areq struct {
 	sep    string
 	prefix string
 	suffix string
+	raw    map[int]string // parameter index -> the complete token as written (operator quote)
 }
 
 func (a *areq) render() string {
@@ -160,6 +183,10 @@ func (a *areq) render() string {
 	for i, p := range a.params {
 		if i > 0 {
 			b.WriteString(a.sep)
+		}
+		if tok, ok := a.raw[i]; ok {
+			b.WriteString(tok)
+			continue
 		}
 		b.WriteString(p.K)
 		b.WriteString(`="`)
@@ -246,6 +273,12 @@ func (c *actx) victimOf(sel int) (peer.ID, []byte, string) {
 // that is NOT in the target's secret domain. None of them is the target's secret unless the
 // target fails to have one of its own.
 func (c *actx) guessKey(sel int) ([]byte, string) {
+	if sel%14 >= 10 {
+		// a secret close to the target's provided one, but not it (secrets_test.go)
+		if key, l, ok := relatedSecret(c.target.hmacKey, sel/14); ok {
+			return key, l
+		}
+	}
 	switch sel % 10 {
 	case 0, 1:
 		return nil, "empty-secret"
@@ -661,6 +694,41 @@ func (c *actx) apply(a *areq, op opPlan) string {
 			a.sep = "\t"
 		}
 		return fmt.Sprintf("%s:%d", name, op.A%9)
+	case opQuote:
+		if pi < 0 {
+			return name + ":none"
+		}
+		kind := quoteDraw[op.A%len(quoteDraw)]
+		p := a.params[pi]
+		junk, jl := "AAAA", "b64"
+		switch op.B % 8 {
+		case 1:
+			junk = "A"
+		case 2:
+			junk, jl = "=", "pad"
+		case 3:
+			junk = "AA=="
+		case 4:
+			if e, ok := c.donor(key, op.C, p.V); ok && e.v != "" && !strings.ContainsAny(e.v, "\" ,") {
+				junk, jl = e.v, "donor-value"
+			}
+		case 5:
+			if p.V != "" && !strings.ContainsAny(p.V, "\" ,") {
+				junk, jl = p.V, "same-value"
+			}
+		case 6:
+			junk, jl = ";x=1", "other"
+		case 7:
+			junk, jl = "\\", "other"
+		}
+		if a.raw == nil {
+			a.raw = map[int]string{}
+		}
+		a.raw[pi] = writeToken(p.K, p.V, kind, junk, op.D)
+		if kind > qJunkThenQuote && kind != qJunkBeforeOpen {
+			jl = "-"
+		}
+		return name + ":" + key + ":" + quoteNames[kind] + ":" + jl
 	}
 	return name
 }
@@ -719,10 +787,18 @@ func TestServerProvenance(t *testing.T) {
 		nontrivial := false
 		idents := caseIdentities(sc.Clients)
 		conf := make([]srvConf, sc.NSrv)
+		modes := make([]secretMode, sc.NSrv)
 		for i := range conf {
-			conf[i] = srvConf{keys.Types[sc.SrvKey[i]], ttlChoices[sc.SrvTTL[i]], sc.SrvTLS[i], secretMode(sc.SrvSecret[i]), i}
+			modes[i] = secretMode(sc.SrvSecret[i])
+		}
+		hmacKeys, keyHow := sc.Keys.keysFor(modes, sc.SrvKeyVar[:sc.NSrv], nil)
+		for i := range conf {
+			conf[i] = srvConf{keyType: keys.Types[sc.SrvKey[i]], ttl: ttlChoices[sc.SrvTTL[i]], tls: sc.SrvTLS[i], secret: modes[i], ident: i, hmac: hmacKeys[i]}
 			if sc.SrvTwin[i] {
 				conf[i].keyType, conf[i].ident = conf[0].keyType, conf[0].ident
+			}
+			if hmacKeys[i] != nil {
+				labels = append(labels, "hmackey:len"+keyLenClass(len(hmacKeys[i])), "hmackey:"+keyHow[i])
 			}
 		}
 		hx.Bubble(t, rt, func() {
@@ -807,7 +883,14 @@ func TestServerProvenance(t *testing.T) {
 				ctx := &actx{w: w, target: target, host: host, victim: victim, chal: challengeText(ap.Chal)}
 				var opd []string
 				for _, op := range ap.Ops {
-					opd = append(opd, ctx.apply(&a, op))
+					if op.Kind != opQuote {
+						opd = append(opd, ctx.apply(&a, op))
+					}
+				}
+				for _, op := range ap.Ops { // the quoting of a value is changed last: it refers to the final parameter list
+					if op.Kind == opQuote {
+						opd = append(opd, ctx.apply(&a, op))
+					}
 				}
 				hdr := a.render()
 				sni := host
@@ -828,6 +911,10 @@ func TestServerProvenance(t *testing.T) {
 					if minter.ident == target.ident {
 						labels = append(labels, "xinst:same-private-key")
 					}
+					if tgtL == "foreign" && minter.hmacKey != nil && target.hmacKey != nil {
+						labels = append(labels, "xkey:"+keyPairClass(minter.hmacKey, target.hmacKey),
+							"xkey:len"+keyLenClass(len(minter.hmacKey))+"->len"+keyLenClass(len(target.hmacKey)))
+					}
 				}
 				desc := fmt.Sprintf("%s|%s|srv=%s|host=%s|sleep=%s", baseName, strings.Join(opd, "+"), tgtL, hostL, sleepL)
 				fp = append(fp, desc)
@@ -847,6 +934,13 @@ func TestServerProvenance(t *testing.T) {
 				labels = append(labels, "base:"+baseName, "outcome:"+out, "target:"+tgtL, "host:"+hostL, "sleep:"+sleepL, fmt.Sprintf("nops:%d", len(ap.Ops)))
 				for _, o := range opd {
 					seg := strings.Split(o, ":")
+					if seg[0] == "quote" && len(seg) > 3 {
+						oc := "rejected"
+						if res.called {
+							oc = "accepted-on-intact-proof"
+						}
+						labels = append(labels, "op:quote", "quote:"+seg[2]+":"+oc, "quote-junk:"+seg[3])
+					}
 					if seg[0] == "resign" {
 						labels = append(labels, "op:resign")
 						for _, x := range seg[1:] {
